@@ -1,7 +1,7 @@
 //! Replays one backoff configuration against the real selium client crate, or searches a grid of boundary configurations for
 //! one that disagrees with the law.  Used only after a deductive failure, to attach a concrete failing input; decides nothing.
 use std::panic;
-use vx_kani_backoff::run;
+use vx_witness_backoff::run;
 
 fn try_run(c: &[u128; 9]) -> Result<(), String> {
     let c = *c;
